@@ -1,9 +1,13 @@
 /-
-Helper lemmas for the refinement of the storage-based batch insertion to the canonical trie.
+Helper lemmas for the refinement of the storage-based batch insertion to the canonical trie (C01b).
+The proof is split over
+* `InsertStore` — reads after writes on `NodeStore`;
+* `InsertBits`  — label operations on `ofBits` labels, on bit strings;
+* `InsertSets`  — `ofList` / `partition` / `setLcp` on both element-set representations;
+* `InsertRep`   — the representation relation, epoch metadata, frame lemmas;
+* `InsertStep`  — `insertRec` cut into phases; `setChild`, `getChild`, `updateHash`;
+* `InsertMain`  — the specification `Spec` of `insertRec`, one side of Phase 2, Phases 2+3;
+* `InsertCases` — the cases of Phase 1 and the induction on fuel (`spec_all`);
+* `InsertRoot`  — the root level (`batchInsert_root`).
 -/
-import AkdModel.CTrie
-import AkdModel.Insert
-import AkdModel.Thm.C17
-import AkdModel.Thm.C01a
-namespace Akd
-end Akd
+import AkdModel.Lemmas.InsertRoot
